@@ -67,7 +67,13 @@ func vfC07Handler(local, remote int32, dir string, s int32) (md metadata.MD, pan
 	observer := NewReplicationStreamObserver(log.NewNoopLogger())
 	srv := NewAdminServiceProxyServer("c07", client, client, AdminServiceOverrides{}, []string{dir}, observer.ReportStreamValue, scc, lcm,
 		RoutingParameters{}, vfNoopLoggers(), nil, context.Background())
-	ss := vfNewServerStream(history.ClusterShardID{ClusterID: clientCluster, ShardID: s}, history.ClusterShardID{ClusterID: serverCluster, ShardID: s}, nil)
+	// the initiator is a real Temporal cluster: it opens the stream for LCM shard s from its own shard
+	// c = ((s-1) mod its own count) + 1
+	initiatorCount := local
+	if dir == "inbound" {
+		initiatorCount = remote
+	}
+	ss := vfNewServerStream(history.ClusterShardID{ClusterID: clientCluster, ShardID: (s-1)%initiatorCount + 1}, history.ClusterShardID{ClusterID: serverCluster, ShardID: s}, nil)
 	defer ss.cancel()
 	func() {
 		defer func() {
@@ -126,7 +132,16 @@ func vfC07CheckMD(res *vrt.Result, level string, local, remote int32, dir string
 
 func vfC07Wiring(res *vrt.Result, local, remote int32, shards func(lcm int32) []int32, counters *[3]int64, mu *sync.Mutex) {
 	replay := map[string]any{"level": "wiring", "local": local, "remote": remote}
-	cl, err := vfStartCluster(config.ClusterConnConfig{ShardCountConfig: config.ShardCountConfig{Mode: config.ShardCountLCM, LocalShardCount: local, RemoteShardCount: remote}})
+	cfg := config.ClusterConnConfig{ShardCountConfig: config.ShardCountConfig{Mode: config.ShardCountLCM, LocalShardCount: local, RemoteShardCount: remote}}
+	// other DescribeCluster overrides configured next to the shard count: a failover-version-increment translation on
+	// one side, the other side or both (by parity of the pair), none when both counts are even
+	if local%2 == 1 {
+		cfg.FVITranslation.Local = 1000
+	}
+	if remote%2 == 1 {
+		cfg.FVITranslation.Remote = 2000
+	}
+	cl, err := vfStartCluster(cfg)
 	if err != nil {
 		res.Violate("lcm/cluster-connection-fails", fmt.Sprintf("local=%d remote=%d: %v", local, remote, err), replay)
 		return
@@ -168,10 +183,11 @@ func vfC07Wiring(res *vrt.Result, local, remote int32, shards func(lcm int32) []
 			conn    *grpc.ClientConn
 			backend *vfBackend
 			cc, sc  int32
-		}{{"inbound", cl.FromRemote, cl.Local, 2, 1}, {"outbound", cl.FromLocal, cl.Remote, 1, 2}} {
+			ic      int32 // the initiating cluster's own shard count
+		}{{"inbound", cl.FromRemote, cl.Local, 2, 1, remote}, {"outbound", cl.FromLocal, cl.Remote, 1, 2, local}} {
 			side.backend.Reset()
 			md := metadata.New(map[string]string{
-				history.MetadataKeyClientClusterID: fmt.Sprint(side.cc), history.MetadataKeyClientShardID: fmt.Sprint(s),
+				history.MetadataKeyClientClusterID: fmt.Sprint(side.cc), history.MetadataKeyClientShardID: fmt.Sprint((s-1)%side.ic + 1),
 				history.MetadataKeyServerClusterID: fmt.Sprint(side.sc), history.MetadataKeyServerShardID: fmt.Sprint(s)})
 			backend := side.backend
 			err := vfOpenStream(side.conn, streamMethod, md, func() bool {
